@@ -18,6 +18,17 @@ let fmt_rx total (l, left) =
   String.concat ";" (List.map (fun (bs, x) -> hex_of_bytes bs ^ ":" ^ xres_s x) l)
   ^ "|" ^ string_of_int (total - left)
 
+let fmt_ierr e =
+  match e with
+  | EInvalidData -> "Err:Io:InvalidData"
+  | EEmptySequence o -> "Err:EmptySequence:" ^ dec_of_n o
+  | EInvalidLineBases (a, x) -> "Err:InvalidLineBases:" ^ dec_of_n a ^ ":" ^ dec_of_n x
+  | EInvalidLineWidth (a, x) -> "Err:InvalidLineWidth:" ^ dec_of_n a ^ ":" ^ dec_of_n x
+  | EOutOfFuel -> "Err:OutOfFuel"
+
+let fmt_fai r =
+  String.concat ":" [hex_of_bytes r.f_name; dec_of_n r.f_len; dec_of_n r.f_pos; dec_of_n r.f_lb; dec_of_n r.f_lw]
+
 let hexlen s = if s = "_" then 0 else String.length s / 2
 
 let handle kind a =
@@ -67,6 +78,10 @@ let handle kind a =
        | SOk -> if int_of_nat b = 0 then Some "Err:EmptySequence"
                 else Some (string_of_int (int_of_nat w) ^ "," ^ string_of_int (int_of_nat b))
        | e -> Some (sres_s e))
+  | "fidxf" ->
+      let cap = nat_of_int (int_of_string a.(1)) in
+      let ((rs, e), _) = run_index_file cap (mk a.(0) a.(2)) in
+      Some (String.concat "," (List.map fmt_fai rs) ^ "|" ^ (match e with None -> "ok" | Some e -> fmt_ierr e))
   | _ -> None
 
 let () = run_driver handle
